@@ -30,7 +30,7 @@ def forests() -> list[tuple[list[Any], list[list[tuple]]]]:
         ([R("LList", elems=[L(1), R("LOpt", one=L(2))]), R("LOpt", one=None)], [[[], [("elems", 0)], [("elems", 1)], [("elems", 1), ("one", None)]], [[]]]),
         ([R("LNarrow", only=L(1)), R("LTup", items=(L(2),))], [[[], [("only", None)]], [[], [("items", 0)]]]),
         # a node with two sequence child fields: an index alone does not identify a position
-        ([R("LTwoSeq", body=(L(1), L(2)), orelse=[L(3), R("LOpt", one=L(4)), L(5)]), L(6)], [[[], [("body", 0)], [("body", 1)], [("orelse", 1)], [("orelse", 2)]], [[]]]),
+        ([R("LTwoSeq", body=(L(1), L(2)), orelse=[L(3), R("LOpt", one=L(4)), L(5)]), R("LOptSeq", seq=(L(6), L(7)), lst=[L(8)])], [[[], [("body", 0)], [("orelse", 2)]], [[], [("seq", 0)], [("lst", 0)]]]),
         # nodes that are falsy in a boolean context (used by the `falsy-nodes` families only)
         ([R("LTup", items=(R("LFalsy", {"v": 1}), R("LOpt", one=R("LFalsy", {"v": 2})))), R("LFalsy", {"v": 3}), L(4)], [[[], [("items", 0)], [("items", 1)], [("items", 1), ("one", None)]], [[]], [[]]]),
         # content-equal branches (f(x); f(x)): twins of inner nodes, in one tree and in a second root (used by the `twin-branches` families only)
@@ -495,7 +495,11 @@ def make_harness(K: int, which: str, first_ops: list[str] | None = None, later_o
                 e.assume(False)
             # histories that would put one object at two positions are outside the statement:
             if op == "replace_with" and (contains(a, r) or contains(r, a)):
-                e.assume(False)
+                # (C19 keeps one such call: the receiver's own parent, an attached root, offered as the
+                # replacement -- it passes the up-front checks and is rejected by the attach step, so the
+                # rejection must leave everything as it was)
+                if not (which == "C19" and a is r.parent and a.parent is None):
+                    e.assume(False)
             if op in ("wrap-pair", "wrap-abstract-sequence") and (contains(a, r) or contains(r, a)):
                 e.assume(False)
             if op == "replace-child" and (contains(a, r) or contains(r, a)):
